@@ -264,8 +264,14 @@ func errCode(err error) uint64 {
 		return 2
 	case errors.Is(err, vivid.ErrorNotFound):
 		return 1
+	case errors.Is(err, vivid.ErrorIllegalArgument):
+		return 7
 	case strings.Contains(err.Error(), "job not found"):
 		return 3
+	case strings.Contains(err.Error(), "job already exists"):
+		return 8
+	case strings.Contains(err.Error(), "empty key name"):
+		return 9
 	}
 	return 99
 }
@@ -286,12 +292,37 @@ func (r *srun) dump() lib.T {
 		}
 		jks[i] = lib.L(lib.S(path(name)), lib.LS(xs))
 	}
-	keys := actor.XVQuartzKeys(r.asys)
-	ks := make([]lib.T, len(keys))
-	for j, s := range keys {
-		ks[j] = lib.S(s)
+	return lib.L(lib.LS(jks), keysTerm(quartzKeys(r.asys)))
+}
+
+const canaryName = "c20-canary"
+
+// quartzKeys: (group, name) of the queued jobs, without the harness's own canary job
+func quartzKeys(s *actor.System) [][2]string {
+	var out [][2]string
+	for _, k := range actor.XVQuartzKeys(s) {
+		if k[0] != path(canaryName) {
+			out = append(out, k)
+		}
 	}
-	return lib.L(lib.LS(jks), lib.LS(ks))
+	return out
+}
+
+func keysTerm(keys [][2]string) lib.T {
+	ks := make([]lib.T, len(keys))
+	for j, k := range keys {
+		ks[j] = lib.L(lib.S(k[0]), lib.S(k[1]))
+	}
+	return lib.LS(ks)
+}
+
+func hasKey(keys [][2]string, group, name string) bool {
+	for _, k := range keys {
+		if k[0] == group && k[1] == name {
+			return true
+		}
+	}
+	return false
 }
 
 func (r *srun) markRemoved(owner int, ref string, all bool, at time.Time, by string) {
@@ -301,15 +332,6 @@ func (r *srun) markRemoved(owner int, ref string, all bool, at time.Time, by str
 			c.removedBy = by
 		}
 	}
-}
-
-func contains(xs []string, s string) bool {
-	for _, x := range xs {
-		if x == s {
-			return true
-		}
-	}
-	return false
 }
 
 func (r *srun) exec(o sop) {
@@ -329,6 +351,9 @@ func (r *srun) exec(o sop) {
 		ok := r.in(o.actor, func(ctx vivid.ActorContext) {
 			s := ctx.Scheduler()
 			opt := vivid.WithSchedulerReference(o.ref)
+			if o.ref == "" { // WithSchedulerReference ignores "", WithScheduleOptions does not
+				opt = vivid.WithScheduleOptions(vivid.ScheduleOptions{Location: time.Local, Reference: ""})
+			}
 			msg := fire{o.payload}
 			st := time.Now()
 			switch o.kind {
@@ -341,17 +366,16 @@ func (r *srun) exec(o sop) {
 					err = s.Cron(recv, validCron, msg, opt)
 				} else {
 					before := s.Exists(o.ref)
-					keysBefore := actor.XVQuartzKeys(r.asys)
+					keysBefore := quartzKeys(r.asys)
 					err = s.Cron(recv, []string{"bad cron", "61 * * * * ?", "* * * *", "0 0 0 32 1 ? 2099"}[int(o.payload)%4], msg, opt)
-					key := ctx.Ref().GetPath() + ":" + o.ref
 					if err == nil {
 						r.cronBad = append(r.cronBad, fmt.Sprintf("Cron with an invalid expression returned nil (actor %s reference %q)", ctx.Ref().GetPath(), o.ref))
 					}
 					if !before && s.Exists(o.ref) {
 						r.cronBad = append(r.cronBad, fmt.Sprintf("after the rejected Cron call Exists(%q) is true on %s", o.ref, ctx.Ref().GetPath()))
 					}
-					if !contains(keysBefore, key) && contains(actor.XVQuartzKeys(r.asys), key) {
-						r.cronBad = append(r.cronBad, fmt.Sprintf("after the rejected Cron call the quartz queue holds %q", key))
+					if !hasKey(keysBefore, ctx.Ref().GetPath(), o.ref) && hasKey(quartzKeys(r.asys), ctx.Ref().GetPath(), o.ref) {
+						r.cronBad = append(r.cronBad, fmt.Sprintf("after the rejected Cron call the quartz queue holds (%q, %q)", ctx.Ref().GetPath(), o.ref))
 					}
 				}
 			}
@@ -362,7 +386,7 @@ func (r *srun) exec(o sop) {
 		if !ok {
 			return
 		}
-		if c != nil {
+		if c != nil && err == nil { // only a call that returned nil is a scheduled job (and is numbered by the model)
 			r.calls = append(r.calls, c)
 		}
 		r.results = append(r.results, lib.N(errCode(err)))
@@ -737,7 +761,7 @@ func runOutcome(sc scenario) *outcome {
 				removal = true
 			}
 		}
-		oc.out = lib.L(lib.LS(res), lib.LS(counts), lib.N(0))
+		oc.out = lib.L(lib.LS(res), lib.LS(counts))
 		oc.nontriv = fired && removal
 		oc.hits = r.judge(r.t0.Add(time.Duration(sc.end) * time.Millisecond))
 		return oc
